@@ -93,6 +93,15 @@ def prepare(rp, ce, params):
             if out.get("back") != f"[Ok({out.get('op')})]": return True, f"real round trip {out.get('back')}"
             return False, "round trip ok"
         return fields, judge_r
+    if fn == "analyze_all":
+        left = list(h_asm.EFFECT_OF.items()); ops = []; want = 0; k = 0
+        while left:
+            c = trace_val(ce, f"pick{k}", 0); k += 1
+            if c == 0: break
+            (g, nm), bit = left.pop(c - 1)
+            ops.append(f"{g}::{nm}:0"); want |= bit
+        fields = dict(kind="asm_bytes", fn="analyze", ops=";".join(ops))
+        return fields, (lambda out: (True, "panics") if "panic" in out else (out.get("bits") != str(want), f"analyze({ops}) = {out.get('bits')}, union = {want}"))
     if fn == "analyze":
         classes = list(h_asm.EFFECT_OF.items()) + [(("Stack", "Push"), 0), (("Alu", "Add"), 0)]
         n = trace_val(ce, "n_ops", 0)
